@@ -37,6 +37,7 @@ def shards(tier):
 def bounds(tier):
     b = c11.bounds(tier)
     b['extra_lists'] = EXTRA
+    b['capped_transition_lists'] = [[(w, n) for w, n in sorted(Counter(l).items())] for l in c11.CAPPED]
     b['generator_levels'] = '<= 8 (quick) / <= 12 (thorough); above that the reference count on the loaded grammar only'
     b['generator_cap_per_level'] = 600 if tier == 'quick' else 50000
     return b
@@ -110,9 +111,9 @@ def run_shard(shard, tier, acc):
             acc.count('training_did_not_complete')
             continue
         for sig, msg in fails[:3]:
-            acc.fail({'lines': lines, 'opts': opts}, '%r ngram=%d alphabet=%d: %s' % ([l[:8] for l in lines], opts['ngram'], opts['alphabet_size'], msg), sig)
+            acc.fail({'runs': c11.rle(lines), 'opts': opts}, '%r ngram=%d alphabet=%d: %s' % ([(w[:8], n) if n > 1 else w[:8] for w, n in c11.rle(lines)][:12], opts['ngram'], opts['alphabet_size'], msg), sig)
         if idx % 211 == si:
-            acc.sample({'training_list': [l[:24] for l in lines], 'opts': opts}, cap=1)
+            acc.sample({'training_list_runs': [[w[:24], n] for w, n in c11.rle(lines)][:12], 'opts': opts}, cap=1)
     tree.rmtree(wd)
 
 
@@ -120,6 +121,6 @@ def replay(case):
     from ..runner import Acc
     tree.use()
     wd = tree.mkdtemp('pcfgmc-c18r-')
-    fails = check_training(wd, case['lines'], case['opts'], Acc())
+    fails = check_training(wd, c11.unrle(case['runs']) if 'runs' in case else case['lines'], case['opts'], Acc())
     tree.rmtree(wd)
     return fails[0][1] if fails else None
